@@ -73,6 +73,7 @@ type Exec struct {
 	regions  map[string][]knownRegion
 	allowPanic []string
 	funcsSeen map[*ssa.Function]bool
+	rvalues  map[*Agg]Value // reflect.Value objects created by the model -> what they hold
 	blocksSeen map[*ssa.BasicBlock]bool
 	spec     bool // speculative (fork-free) evaluation
 	pr       *pathReport
@@ -1566,6 +1567,12 @@ func (x *Exec) prepCall(fr *Frame, c *ssa.CallCommon) (func([]Value) Value, []Va
 				return h, args
 			}
 			x.abort("UNSUPPORTED", fmt.Sprintf("method %s on engine-native %T", c.Method.Name(), iv.V))
+		}
+		if nt, ok := c.Value.Type().(*types.Named); ok && nt.Obj().Pkg() != nil && nt.Obj().Pkg().Path() == "reflect" && nt.Obj().Name() == "Type" {
+			if h := x.reflectTypeMethod(iv, c.Method.Name()); h != nil {
+				return h, args
+			}
+			x.abort("UNSUPPORTED", "reflect.Type."+c.Method.Name())
 		}
 		fn := x.findMethod(iv.T, c.Method.Pkg(), c.Method.Name())
 		if fn == nil {
